@@ -609,6 +609,76 @@ static void scen_dead_port(fb_slot_t* me) {
   close(c);
 }
 
+// ---- scenario 7: a reader and a writer blocked on the same descriptor in opposite directions; each must be resumed by
+// readiness for its own direction even though the other one registered later / is still blocked
+static int od_a, od_b;
+static _Atomic int od_reader_done, od_writer_done;
+static void* od_reader(void* a) {
+  fb_slot_t* s = (fb_slot_t*)a;
+  char b[4];
+  ssize_t r = -1;
+  FB_BLOCKING(s, "C08 read (while a writer is blocked on the same descriptor)", r = read(od_a, b, 1));
+  if (r != 1) vp_violation("C08", "io:read-failed", "trial %d: read returned %zd (errno %d) with one byte available", trial, r, vp_errno());
+  atomic_store(&od_reader_done, 1);
+  return NULL;
+}
+static void* od_writer(void* a) {
+  fb_slot_t* s = (fb_slot_t*)a;
+  static char big[400000];
+  size_t off = 0;
+  while (off < sizeof(big)) {
+    ssize_t r = -1;
+    FB_BLOCKING(s, "C08 write (while a reader is blocked on the same descriptor)", r = write(od_a, big + off, sizeof(big) - off));
+    if (r <= 0) {
+      vp_violation("C08", "io:write-failed", "trial %d: write returned %zd (errno %d)", trial, r, vp_errno());
+      break;
+    }
+    off += (size_t)r;
+  }
+  atomic_store(&od_writer_done, 1);
+  return NULL;
+}
+static void scen_opposite(fb_slot_t* me, uint64_t* rng) {
+  int sv[2];
+  if (socketpair(AF_UNIX, SOCK_STREAM, 0, sv)) return;
+  shrink(sv[0]);
+  shrink(sv[1]);
+  od_a = sv[0];
+  od_b = sv[1];
+  atomic_store(&od_reader_done, 0);
+  atomic_store(&od_writer_done, 0);
+  const int reader_first = (int)(vp_rand(rng) & 1);
+  fb_slot_t *r, *w;
+  if (reader_first) {
+    r = fb_spawn(od_reader, NULL);
+    usleep(3000);
+    w = fb_spawn(od_writer, NULL);
+  } else {
+    w = fb_spawn(od_writer, NULL);
+    usleep(3000);
+    r = fb_spawn(od_reader, NULL);
+  }
+  usleep(6000);  // both are blocked now (nobody reads the peer, nobody has written to it)
+  if (write(od_b, "z", 1) != 1) vp_violation("C08", "io:write-failed", "trial %d: one byte write to the idle direction failed", trial);
+  // the reader is entitled to return now, while the writer is still blocked (its peer has not drained anything)
+  FB_BLOCKING(me, "C08 fiber_join(reader entitled to return)", fiber_join(r->fiber, NULL));
+  char sink[65536];
+  size_t got = 0;
+  while (got < 400000) {
+    ssize_t n = -1;
+    FB_BLOCKING(me, "C08 read (draining the blocked writer)", n = read(od_b, sink, sizeof(sink)));
+    if (n <= 0) {
+      vp_violation("C08", "io:read-failed", "trial %d: draining read returned %zd (errno %d)", trial, n, vp_errno());
+      break;
+    }
+    got += (size_t)n;
+  }
+  FB_BLOCKING(me, "C08 fiber_join(writer entitled to return)", fiber_join(w->fiber, NULL));
+  vp_count("io_opposite_direction_trials", 1);
+  close(sv[0]);
+  close(sv[1]);
+}
+
 static void* root(void* x) {
   (void)x;
   const int trials = (int)vp_param("trials", 14);
@@ -624,14 +694,14 @@ static void* root(void* x) {
   c_close_wakes = vp_counter("io_readers_woken_by_close");
   c_accepts = vp_counter("io_connections_accepted_with_several_acceptors");
   c_dgrams = vp_counter("io_datagrams_with_several_receivers");
-  static const char* const sn[7] = {"io_scen_streams", "io_scen_eof", "io_scen_nonblocking", "io_scen_invalid_fd", "io_scen_close_wakes", "io_scen_many_waiters", "io_scen_dead_port"};
-  for (i = 0; i < 7; ++i) c_scen[i] = vp_counter(sn[i]);
+  static const char* const sn[8] = {"io_scen_streams", "io_scen_eof", "io_scen_nonblocking", "io_scen_invalid_fd", "io_scen_close_wakes", "io_scen_many_waiters", "io_scen_dead_port", "io_scen_opposite_directions"};
+  for (i = 0; i < 8; ++i) c_scen[i] = vp_counter(sn[i]);
   uint64_t rng = vp_mix(vp_cfg.seed, 808);
   fb_slot_t* me = NULL;
   for (trial = 0; trial < trials; ++trial) {
     fb_slots_reset();
     me = fb_slot_new();
-    scen = only >= 0 ? only : (int)(vp_rand(&rng) % 7);
+    scen = only >= 0 ? only : (int)(vp_rand(&rng) % 8);
     vp_add(c_scen[scen], 1);
     switch (scen) {
       case 0: scen_streams(&rng); break;
@@ -640,7 +710,8 @@ static void* root(void* x) {
       case 3: scen_invalid(&rng); break;
       case 4: scen_close_wakes(&rng); break;
       case 5: scen_many_waiters(&rng); break;
-      default: scen_dead_port(me); break;
+      case 6: scen_dead_port(me); break;
+      default: scen_opposite(me, &rng); break;
     }
     atomic_store(&me->finished, 1);
     vp_sig(vp_mix(((uint64_t)scen << 20) | (uint64_t)vp_cfg.threads, (uint64_t)vp_get(c_bytes) * 3 + (uint64_t)vp_get(c_blocked_calls)));
